@@ -72,7 +72,12 @@ def checkCompLine (kvs : List (String × String)) (rhs : String) : String := Id.
   if rhs.startsWith "panic:" then return s!"FAIL SPEC bottom-up compilation panicked: {rhs}"
   let okv := splitKV rhs
   let lvl := lvlOf order
-  let cnfTT := ttString n (cnfFn cs)
+  -- the oracle reads the clauses AS GENERATED (`raw`), before `Cnf::new` normalised them; the
+  -- normalised list `cnf` (what the compilers were handed) must denote the same function
+  let raw := ((lookup kvs "raw").bind parseCnf).getD cs
+  let cnfTT := ttString n (cnfFn raw)
+  if ttString n (cnfFn cs) != cnfTT then
+    return s!"FAIL SPEC Cnf::new changed the function: the clauses as written denote {cnfTT}, the normalised ones {ttString n (cnfFn cs)}"
   let lits := assignmentIter pm
   let condTT := ttString n (fCondList (cnfFn cs) lits)
   let exprTT := ttString n (exprTextSem e)
